@@ -43,6 +43,10 @@ def call_builtin(ex, f: Builtin, pos: List[Any], kws: Dict[str, Any], kwrest: Op
 # ----------------------------------------------------------------------------- type predicates
 def b_isinstance(ex, pos, kws, st):
     v, c = pos
+    if isinstance(c, T) and c.hint == "type":
+        # isinstance(v, <class of a symbolic object>): the finite subclass table (model.subcls)
+        z = ex.term(v, st)
+        return [(st, T(M.BoolV(z3.And(M.is_Ref(z), M.subcls(M.rcls(z), M.cid(c.z)))), "bool"))]
     names = cls_names(ex, c, st)
     if isinstance(v, (Cls,)):
         return [(st, ex.const("type" in names or "object" in names))]
